@@ -333,23 +333,60 @@ void vp_install_handlers(void) {
 }
 
 // ---------------------------------------------------------------- guarded buffers
-static inline uint8_t canary_byte(uint64_t cseed, size_t off) { return (uint8_t)(0xA5u ^ (uint8_t)(off * 131u + cseed)); }
+static inline uint64_t canary_word(uint64_t cseed, size_t widx) { return (cseed ^ (uint64_t)widx) * 0x9E3779B97F4A7C15ull + 0x7F4A7C15u; }
+static inline uint8_t canary_byte(uint64_t cseed, size_t off) { return (uint8_t)(canary_word(cseed, off >> 3) >> (8 * (off & 7))); }
+// fills / checks base[from,to) (base is 8-byte aligned); returns first bad offset or (size_t)-1
+static void canary_fill(uint8_t* base, uint64_t cseed, size_t from, size_t to) {
+  size_t i = from;
+  for (; i < to && (i & 7); i++) base[i] = canary_byte(cseed, i);
+  for (; i + 8 <= to; i += 8) {
+    uint64_t w = canary_word(cseed, i >> 3);
+    memcpy(base + i, &w, 8);
+  }
+  for (; i < to; i++) base[i] = canary_byte(cseed, i);
+}
+static size_t canary_find_bad(const uint8_t* base, uint64_t cseed, size_t from, size_t to, int backwards) {
+  size_t bad = (size_t)-1;
+  size_t i = from;
+  for (; i < to && (i & 7); i++)
+    if (base[i] != canary_byte(cseed, i)) {
+      if (!backwards) return i;
+      bad = i;
+    }
+  for (; i + 8 <= to; i += 8) {
+    uint64_t w;
+    memcpy(&w, base + i, 8);
+    if (w != canary_word(cseed, i >> 3)) {
+      for (size_t j = i; j < i + 8; j++)
+        if (base[j] != canary_byte(cseed, j)) {
+          if (!backwards) return j;
+          bad = j;
+        }
+    }
+  }
+  for (; i < to; i++)
+    if (base[i] != canary_byte(cseed, i)) {
+      if (!backwards) return i;
+      bad = i;
+    }
+  return bad;
+}
 
 void* gb_alloc(gbuf_t* g, size_t n, size_t align, size_t mis, size_t guard) {
   if (guard < 4096) guard = 4096;
+  if (guard > (1u << 20)) guard = 1u << 20;
   if (align < 8) align = 8;
   g->guard = guard;
   g->n = n;
   g->total = guard + align + mis + n + guard + 64;
-  g->base = (uint8_t*)malloc(g->total);
-  if (!g->base) harness_fail("out of memory (%zu bytes)", g->total);
+  if (posix_memalign((void**)&g->base, 64, g->total)) harness_fail("out of memory (%zu bytes)", g->total);
   uintptr_t u = (uintptr_t)g->base + guard;
   u = (u + align - 1) & ~(uintptr_t)(align - 1);
   g->p = (uint8_t*)u + mis;
   g->cseed = mix64((uint64_t)n * 31 + mis + guard);
   size_t pre = (size_t)(g->p - g->base);
-  for (size_t i = 0; i < pre; i++) g->base[i] = canary_byte(g->cseed, i);
-  for (size_t i = pre + n; i < g->total; i++) g->base[i] = canary_byte(g->cseed, i);
+  canary_fill(g->base, g->cseed, 0, pre);
+  canary_fill(g->base, g->cseed, pre + n, g->total);
   VP_POISON(g->base, pre);
   VP_POISON(g->p + n, g->total - pre - n);
   return g->p;
@@ -359,21 +396,17 @@ int gb_check(gbuf_t* g, long* where) {
   int bad = 0;
   VP_UNPOISON(g->base, pre);
   VP_UNPOISON(g->p + g->n, g->total - pre - g->n);
-  for (size_t i = pre; i-- > 0;) {
-    if (g->base[i] != canary_byte(g->cseed, i)) {
+  size_t b = canary_find_bad(g->base, g->cseed, 0, pre, 1);
+  if (b != (size_t)-1) {
+    bad = 1;
+    if (where) *where = (long)b - (long)pre;
+  } else {
+    b = canary_find_bad(g->base, g->cseed, pre + g->n, g->total, 0);
+    if (b != (size_t)-1) {
       bad = 1;
-      if (where) *where = (long)i - (long)pre;
-      break;
+      if (where) *where = (long)(b - pre);
     }
   }
-  if (!bad)
-    for (size_t i = pre + g->n; i < g->total; i++) {
-      if (g->base[i] != canary_byte(g->cseed, i)) {
-        bad = 1;
-        if (where) *where = (long)(i - pre);
-        break;
-      }
-    }
   VP_POISON(g->base, pre);
   VP_POISON(g->p + g->n, g->total - pre - g->n);
   return bad;
@@ -393,17 +426,17 @@ static void fill_pattern(uint8_t* p, size_t n, int pattern, uint64_t seed) {
     case 1:
       memset(p, 0xFF, n);
       break;
-    case 2: {  // signalling-NaN pattern 0x7FF4DEADBEEF0001
-      const uint64_t w = 0x7FF4DEADBEEF0001ull;
-      for (size_t i = 0; i < n; i++) p[i] = (uint8_t)(w >> (8 * (i & 7)));
-      break;
-    }
     default: {
+      // 2: signalling-NaN pattern 0x7FF4DEADBEEF0001; 3: seeded noise
+      const uint64_t nanw = 0x7FF4DEADBEEF0001ull;
       uint64_t x = seed;
-      for (size_t i = 0; i < n; i++) {
-        if ((i & 7) == 0) x = mix64(x + i);
-        p[i] = (uint8_t)(x >> (8 * (i & 7)));
+      size_t i = 0;
+      for (; i + 8 <= n; i += 8) {
+        uint64_t w = nanw;
+        if ((pattern & 3) == 3) w = x = mix64(x + i);
+        memcpy(p + i, &w, 8);
       }
+      for (; i < n; i++) p[i] = (uint8_t)(nanw >> (8 * (i & 7)));
     }
   }
 }
